@@ -426,3 +426,6 @@ Proof. destruct l as [|x r]; cbn [map zmin_list py_min]; [now rewrite item_nil|]
 Lemma zmax_list_map_key (l : list wvals) obj :
   zmax_list (map (fun f => item f obj) l) 0 = item (py_max (fun f => item f obj) l []) obj.
 Proof. destruct l as [|x r]; cbn [map zmax_list py_max]; [now rewrite item_nil|]. apply (max_by_key (fun f => item f obj)). Qed.
+
+Lemma fold_left_map {A B S} (g : S -> B -> S) (f : A -> B) l : forall s, fold_left g (map f l) s = fold_left (fun s x => g s (f x)) l s.
+Proof. induction l; intros; cbn; auto. Qed.
